@@ -142,7 +142,7 @@ def closure_ret_ty(prog, fn, fop, default):
 
 
 ITER = 'core::iter::traits::iterator::Iterator::'
-ITER_SEARCH = ('position', 'find', 'find_map', 'any', 'all', 'try_for_each')
+ITER_SEARCH = ('position', 'find', 'find_map', 'any', 'all', 'try_for_each', 'for_each')
 
 
 def expand_iter_site(prog, fn, bi, meth):
@@ -157,9 +157,11 @@ def expand_iter_site(prog, fn, bi, meth):
     if it is None or cl is None:
         return False
     ity = fn.local_ty(it)
-    if not ity.startswith('&mut '):
+    by_value = not ity.startswith('&mut ')
+    if by_value and meth != 'for_each':
         return False
-    itty = ity[5:]
+    itty = ity if by_value else ity[5:]
+    ity = '&mut ' + itty
     cf = closure_of(prog, fn, cl)
     if cf is None or not cf.has_body or len(cf.locals) < 3:
         return False
@@ -179,11 +181,14 @@ def expand_iter_site(prog, fn, bi, meth):
     if meth == 'position':
         ctr = B.local('usize')
         B.assign(bi, pl(ctr), use({'k': {'ty': 'usize', 'scalar': {'bits': '0', 'size': 8, 'val': '0'}}}))
+        # by construction ctr is the index of the element the iterator last yielded (rules use this: `slice[position(..)?]`
+        # is the element the predicate accepted)
+        fn.position_loops = getattr(fn, 'position_loops', []) + [{'ctr': ctr, 'iter': it, 'head': head}]
     fn.blocks[bi]['t'] = {'k': 'goto', 't': head, 'syn': True}
     # head: n = next(&mut *it)
     rb = B.local(ity)
     n = B.local(opt_item)
-    B.assign(head, pl(rb), {'k': 'ref', 'mut': True, 'p': pl(it, ['*'])})
+    B.assign(head, pl(rb), {'k': 'ref', 'mut': True, 'p': pl(it, [] if by_value else ['*'])})
     nb = B.block()
     rec = {'decl': ITER + 'next', 'declstr': ITER + 'next', 'args': [itty], 'trait': 'core::iter::traits::iterator::Iterator',
            'self_ty': itty, 'self_param': False, 'unsafe': False, 'kind': 'item', 'key': ITER + 'next',
@@ -201,6 +206,8 @@ def expand_iter_site(prog, fn, bi, meth):
         B.assign(bnone, copy.deepcopy(dest), use(const_bool(False)))
     elif meth == 'all':
         B.assign(bnone, copy.deepcopy(dest), use(const_bool(True)))
+    elif meth == 'for_each':
+        B.assign(bnone, copy.deepcopy(dest), use(unit))
     else:  # try_for_each over Result<(), E>
         if not rty.startswith(RES):
             return False
@@ -209,6 +216,8 @@ def expand_iter_site(prog, fn, bi, meth):
     # an element
     x = B.local(item_ty)
     B.assign(bsome, pl(x), use({'m': payload(n, OPT, 'Some', 1, item_ty)}))
+    if meth == 'position':
+        fn.position_loops[-1].update({'elem': x, 'next_block': head, 'opt': n})
     carg = mv(x)
     if by_ref_item:
         xr = B.local('&' + item_ty)
@@ -219,6 +228,9 @@ def expand_iter_site(prog, fn, bi, meth):
     if r is None:
         return False
     hit, miss = B.block(), B.block()
+    if meth == 'for_each':
+        B.goto(after, head)
+        return True
     if meth in ('position', 'find', 'any', 'all'):
         fn.blocks[after]['t'] = {'k': 'switch', 'd': mv(r), 'dty': 'bool', 'ts': [['0', miss if meth != 'all' else hit]], 'o': hit if meth != 'all' else miss, 'syn': True}
         if meth == 'position':
